@@ -109,7 +109,7 @@ def anchors(run):
         problems.append("push_json_value no longer writes dict keys and record fields through push_json_str")
     for d in (src.fn('transpile_expr', impl=r'JsonGenerator'), src.fn('transpile_value', impl=r'JsonGenerator'), src.fn('push_json_value')):
         dd = d.describe()
-        dd["unit_label"] = dd.get("what", "") + " (textual anchor + BOUNDED run-time-checked contract only)"
+        dd["unit_label"] = dd.get("item", "") + " (textual anchor + BOUNDED run-time-checked contract only)"
         run.functions.append(dd)
     if problems:
         raise Undecided('; '.join(problems))
